@@ -12,28 +12,43 @@ CONSTANTS LeafStride, PairPool, TriplePool
 
 IK == 20        \* id of the internal key in the harness universe
 
-AllLeaves == {x.a : x \in {y \in WTUpTo(MaxNodes) : y.t.b = "B" /\ KeyCanonical(y.a)}}
-LP1 == Thin(AllLeaves, LeafStride, CompSeed)
+\* leaves a descriptor accepts: B, signed, non-malleable, no key twice in one leaf
+NoDup(m) == LET ks == KeysPre(m) IN Cardinality(Range(ks)) = Len(ks)
+SaneLeaves == {x.a : x \in {y \in WTUpTo(MaxNodes) : y.t.b = "B" /\ Has(y.t, {"s", "m"}) /\ KeyCanonical(y.a) /\ NoDup(y.a)}}
+\* (definitions over overridden constants are re-evaluated at every use: park the pool once)
+ASSUME TLCSet(11, Thin(SaneLeaves, LeafStride, CompSeed))
+LP1 == TLCGet(11)
 LP2 == LET Q == SetToSeq(LP1) IN {Q[q] : q \in 1..(IF Len(Q) < PairPool THEN Len(Q) ELSE PairPool)}
 LP3 == LET Q == SetToSeq(LP1) IN {Q[q] : q \in 1..(IF Len(Q) < TriplePool THEN Len(Q) ELSE TriplePool)}
 
+\* leaves of one tree either share their key names or use disjoint ones (keys of leaf q shifted by 2(q-1))
+RECURSIVE Shift(_, _)
+Shift(m, d) == IF d = 0 THEN m ELSE Shift(ShiftKeys(m), d - 1)
+Disjoint(ls) == [q \in 1..Len(ls) |-> Shift(ls[q], 2 * (q - 1))]
+
+Trees0 ==
+  {[leaves |-> <<a, c>>, dl |-> <<1, 1>>] : a \in LP2, c \in LP2}
+  \cup {[leaves |-> <<a, c, d>>, dl |-> <<1, 2, 2>>] : a \in LP3, c \in LP3, d \in LP3}
+  \cup {[leaves |-> <<a, c, d>>, dl |-> <<2, 2, 1>>] : a \in LP3, c \in LP3, d \in LP3}
 Trees ==
   {[leaves |-> <<>>, dl |-> <<>>]}
   \cup {[leaves |-> <<a>>, dl |-> <<0>>] : a \in LP1}
-  \cup {[leaves |-> <<a, c>>, dl |-> <<1, 1>>] : a \in LP2, c \in LP2}
-  \cup {[leaves |-> <<a, c, d>>, dl |-> <<1, 2, 2>>] : a \in LP3, c \in LP3, d \in LP3}
-  \cup {[leaves |-> <<a, c, d>>, dl |-> <<2, 2, 1>>] : a \in LP3, c \in LP3, d \in LP3}
+  \cup Trees0 \cup {[t EXCEPT !.leaves = Disjoint(t.leaves)] : t \in Trees0}
 
 \* pseudo AST collecting every atom of the descriptor (only its atoms are used)
 Union(t) == Ast("thresh", 1, <<>>, <<Un("c", Leaf("pk_k", IK))>> \o t.leaves)
 
 WorldJson(w) == [sigs |-> SetToSeq(w.sigs), pre |-> SetToSeq(w.pre), env |-> w.env]
 
-CaseSeq ==
-  LET S == SetToSeq(Trees) IN
-  [q \in 1..Len(S) |->
-     [id |-> q, ctx |-> "tap", ik |-> IK, leaves |-> S[q].leaves, dl |-> S[q].dl,
-      worlds |-> LET W == SetToSeq(WorldsOfCtx(Union(S[q]), "tap")) IN [j \in 1..Len(W) |-> WorldJson(W[j])]]]
+\* values are bound through singleton comprehensions: a LET definition would be re-evaluated at
+\* every reference (quadratic in the number of worlds)
+WorldsSeq(W) == [j \in 1..Len(W) |-> WorldJson(W[j])]
+CaseOf(t, q) ==
+  [id |-> q, ctx |-> "tap", ik |-> IK, leaves |-> t.leaves, dl |-> t.dl,
+   worlds |-> CHOOSE r \in {WorldsSeq(W) : W \in {SetToSeq(WorldsOfCtx(Union(t), "tap"))}} : TRUE]
+CasesOf(S) == [q \in 1..Len(S) |-> CaseOf(S[q], q)]
+ASSUME TLCSet(12, CHOOSE r \in {CasesOf(S) : S \in {SetToSeq(Trees)}} : TRUE)
+CaseSeq == TLCGet(12)
 
 ASSUME ndJsonSerialize(IOEnv.OUT, CaseSeq)
 ASSUME PrintT("GEN " \o ToJson(<<"cases", Len(CaseSeq), Cardinality(LP1), Cardinality(LP2), Cardinality(LP3)>>))
